@@ -161,17 +161,20 @@ def evaluate__name_related_functions(self: XPathFunction, context: ta.ContextTyp
     elif context is None:
         raise self.missing_context()
 
+    symbol = self.symbol
+    # fn:namespace-uri returns an xs:anyURI in XPath 2.0+, also when there is no name
+    empty = AnyURI('') if symbol == 'namespace-uri' and self.parser.version != '1.0' else ''
+
     arg = self.get_argument(context, default_to_context=True)
     if arg is None:
-        return ''
+        return empty
     elif not isinstance(arg, XPathNode):
         raise self.error('XPTY0004')
 
     name = arg.name
     if name is None:
-        return ''
+        return empty
 
-    symbol = self.symbol
     if symbol == 'name':
         node_name = arg.node_name
         if node_name is None:
